@@ -31,7 +31,16 @@ def gen(rng, i):
 
 
 def run(ctx):
-    return busprop.run(ctx, gen, 'C13.cfg', 66, 1200, RULE)
+    import vlib
+    res = busprop.run(ctx, gen, 'C13.cfg', 66, 1200, RULE)
+    # the closed model with limits that change while the bus runs: nothing grows at or above the limit in force
+    mc = vlib.model_check('BusMC.tla', 'C13r.cfg', timeout=600)
+    res['coverage']['reload_model'] = {'states': mc['states'], 'transitions': mc['transitions'], 'config': 'C13r.cfg',
+                                       'properties': 'GrowthOnlyBelowLimit, ReloadTouchesOnlyCfg (+ the C13.cfg action properties)'}
+    if not mc['ok']:
+        res['violations'].append({'signature': 'model:' + mc['violated'], 'what': 'TLC found the specification itself violates ' + mc['violated'] + ' (C13r.cfg)',
+                                  'tlc': mc['out'][-6000:]})
+    return res
 
 
 def replay(ctx, path):
